@@ -53,7 +53,19 @@ func TestC09(t *testing.T) {
 		countFaults(applied)
 
 		opens := 0
+		// sometimes: a first attempt hits a transient read error on the old build, and the application
+		// is retried through the same checking pool (its verdict cache survives)
+		retry := rapid.IntRange(0, 4).Draw(rt, "retry") == 0
+		failAt := rapid.IntRange(1, 12).Draw(rt, "failread")
+		var keptSK lake.Pool
+		var keptInner *Pool
 		ar := ApplyFresh(patch, dmgDir, outDir, ApplyOpts{
+			OnPool: func(p *Pool) {
+				keptInner = p
+				if retry {
+					p.FailRead = failAt
+				}
+			},
 			WrapPool: func(inner lake.Pool, c *tlc.Container) lake.Pool {
 				sk, err := pwr.NewSafeKeeper(pwr.SafeKeeperParams{
 					Inner: inner,
@@ -65,9 +77,17 @@ func TestC09(t *testing.T) {
 					},
 				})
 				Must(err, "NewSafeKeeper")
+				keptSK = sk
 				return sk
 			},
 		})
+		if retry && ar.Err != nil && keptInner != nil && keptInner.Faults > 0 && keptSK != nil {
+			Ev.Fault("transient_read_error_then_retry", 1)
+			keptInner.FailRead = 0
+			outDir = filepath.Join(dir, "out-retry")
+			sk := keptSK
+			ar = ApplyFresh(patch, dmgDir, outDir, ApplyOpts{WrapPool: func(inner lake.Pool, c *tlc.Container) lake.Pool { return sk }})
+		}
 		if ar.Panic != "" {
 			Violation(rt, "C09/panic", "apply through the safekeeper panicked at %s: %s (patch %s, faults %v)", ar.Stage, ar.Panic, desc, faultStrings(applied))
 			return
